@@ -79,8 +79,8 @@ Proof.
   unfold cscale; cbn. f_equal; field; lra.
 Qed.
 
-Lemma bezier_unit_tangent_regular poly d t :
-  d <> (0, 0) -> bezier_unit_tangent NR TR poly d t = Val (unit_of NR TR d).
+Lemma bezier_unit_tangent_regular rp poly d hi t :
+  d <> (0, 0) -> bezier_unit_tangent NR TR rp poly d hi t = Val (unit_of NR TR d).
 Proof.
   intros H. unfold bezier_unit_tangent. rewrite cabs_R.
   rewrite eqb_R_false; [reflexivity|]. pose proof (nrm_pos H). cbn; lra.
